@@ -160,3 +160,20 @@ mod tests {
         assert_relative_eq!(result, shift_i.to_matrix(), epsilon = 1e-10);
     }
 }
+
+/// Verification hook: the state of the private alignment problem after a given sequence of
+/// parameter updates, as (transform, residuals) - the same pair `points_to_curve` assembles.
+#[cfg(feature = "verif")]
+pub fn verif_points_to_curve_eval(
+    points: &[Point2],
+    curve: &Curve2,
+    initial: &Iso2,
+    xs: &[[f64; 3]],
+) -> (Iso2, Vec<f64>) {
+    let mut problem = PointsToCurve::new(points, curve, initial);
+    for x in xs {
+        problem.set_params(&Vector::<f64, U3, Owned<f64, U3>>::new(x[0], x[1], x[2]));
+    }
+    let residuals = problem.residuals().unwrap().as_slice().to_vec();
+    (*problem.params.transform(), residuals)
+}
